@@ -88,6 +88,8 @@ Definition spec_incr (s : sstate) (k : bytes) (delta : Z) : sstate * out :=
   | None => (s, out_err EValueType)
   | Some n =>
       let nv := n + delta in
+      (* a sum outside the integer range is refused like a non-number *)
+      if negb (in_int64 nv) then (s, out_err EValueType) else
       (sput k (mkEntry (AVStr (itoa nv)) (keep_exp s k)) s, out_ok (VI nv))
   end.
 
@@ -434,6 +436,7 @@ Definition spec_hincr (s : sstate) (k f : bytes) (delta : Z) : sstate * out :=
   | Some n =>
       if other_type s k 4 then (s, out_err EKeyType) else
       let nv := n + delta in
+      if negb (in_int64 nv) then (s, out_err EValueType) else
       (sput_val s k (AVHash (hput (fields_of s k) f (itoa nv))), out_ok (VI nv))
   end.
 
